@@ -691,7 +691,23 @@ def str_consts(ctx: Ctx, f: FunctionInfo, e: Optional[ast.AST], at: Optional[int
     out: Set[str] = set()
     if e is None:
         return out
+    top_ = f
+    while top_.parent is not None:
+        top_ = top_.parent
+    pruned: Set[int] = set()
     for x in ast.walk(e):
+        # `TABLE["head_object"]` with TABLE a module- / class-level dict of constants: exactly that entry, not the whole table
+        if isinstance(x, ast.Subscript) and isinstance(x.slice, ast.Constant) and isinstance(x.value, (ast.Name, ast.Attribute)):
+            tn = x.value.id if isinstance(x.value, ast.Name) else x.value.attr
+            tbl = (top_.cls.consts.get(tn) if top_.cls is not None else None) or f.module.consts.get(tn)
+            if isinstance(tbl, ast.Dict):
+                for k_, v_ in zip(tbl.keys, tbl.values):
+                    if isinstance(k_, ast.Constant) and k_.value == x.slice.value:
+                        out |= {c.value for c in ast.walk(v_) if isinstance(c, ast.Constant) and isinstance(c.value, str)}
+                pruned |= {id(y) for y in ast.walk(x)}
+    for x in ast.walk(e):
+        if id(x) in pruned:
+            continue
         if isinstance(x, ast.Constant) and isinstance(x.value, str):
             out.add(x.value)
         nm = x.id if isinstance(x, ast.Name) else (x.attr if isinstance(x, ast.Attribute) else None)
